@@ -251,6 +251,13 @@ class C19(Check):
             for r in (0, 1, 2):
                 if n * r <= MAXLEN:
                     out.append(("repeat", j, r))
+            if full and n * 2 <= MAXLEN:
+                out.append(("repeat", j, "np2"))  # a numpy integer
+            if full:
+                out.append(("mapn", j, "tuple"))  # one callable per element given as a tuple
+                if n + 2 <= MAXLEN:
+                    out.append(("addplain", j, "tuple2"))
+                    out.append(("addplain", j, "gen2"))
             for k in range(n_lists):
                 if n + len(st["model"][k]) <= MAXLEN:
                     out.append(("add", j, k))
@@ -262,10 +269,16 @@ class C19(Check):
             idx_sets = [(), (0,), (-1,), (0, 0), (n - 1, 0), (1, -1, 1), (n,), (-n - 1,)]
             if mine == "tiny":
                 idx_sets = [(n - 1, 0), (0, 0), (n,)]
-            kinds = ("list", "tuple", "ndarray") if full else ("list", "ndarray") if mine == "reduced" else ("ndarray",)
+            kinds = ("list", "tuple", "ndarray", "int32", "generator") if full else ("list", "ndarray") if mine == "reduced" else ("ndarray",)
             for kind in kinds:
                 for idx in idx_sets:
                     out.append(("fancy", j, kind, idx))
+            # range objects (iterables too): the same indices as the list they enumerate - NOT slice semantics
+            ranges = [(0, n, 1), (n - 1, -1, -1), (-2, 2, 1), (1, n + 2, 1), (0, n, 2), (-1, -n - 1, -1), (n, 0, -2), (2, 2, 1)]
+            if mine != "full":
+                ranges = [(n - 1, -1, -1), (-2, 2, 1), (1, n + 2, 1)]
+            for rg in ranges:
+                out.append(("fancy", j, "range", rg))
         if level == 0 and st["shard"][1] > 1:
             out = [o for i, o in enumerate(out) if i % st["shard"][1] == st["shard"][0]]
         return out
@@ -353,6 +366,11 @@ class C19(Check):
             f = st["funcs"][op[2]]
             new_live, exc = call(lambda: ll.map(f))
             new_model = tuple(("m", op[2], e) for e in mod)
+        elif kind == "mapn" and op[2] == "tuple":
+            names = ["f" if i % 2 == 0 else "g" for i in range(len(mod))]
+            fs = tuple(st["funcs"][n] for n in names)
+            new_live, exc = call(lambda: ll.map(fs))
+            new_model = tuple(("m", n, e) for n, e in zip(names, mod))
         elif kind == "mapn":
             cnt = len(mod) + op[2]
             names = ["f" if i % 2 == 0 else "g" for i in range(cnt)]
@@ -363,23 +381,39 @@ class C19(Check):
             else:
                 new_model = tuple(("m", n, e) for n, e in zip(names, mod))
         elif kind == "repeat":
-            new_live, exc = call(lambda: ll.repeat(op[2]))
-            new_model = tuple(e for e in mod for _ in range(op[2]))
+            rep = np.int64(2) if op[2] == "np2" else op[2]
+            new_live, exc = call(lambda: ll.repeat(rep))
+            new_model = tuple(e for e in mod for _ in range(int(rep)))
         elif kind == "add":
             other = st["lists"][op[2]]
             new_live, exc = call(lambda: ll + other)
             new_model = tuple(mod) + tuple(st["model"][op[2]])
         elif kind == "addplain":
-            plain = [("p", i) for i in range(op[2])]
-            new_live, exc = call(lambda: ll + plain)
+            if op[2] in ("tuple2", "gen2"):
+                plain = [("p", 0), ("p", 1)]
+                other = tuple(plain) if op[2] == "tuple2" else (x for x in plain)
+            else:
+                plain = [("p", i) for i in range(op[2])]
+                other = plain
+            new_live, exc = call(lambda: ll + other)
             new_model = tuple(mod) + tuple(plain)
         elif kind == "slice":
             s = slice(op[2], op[3], op[4])
             new_live, exc = call(lambda: ll[s])
             new_model = tuple(list(mod)[s])
         elif kind == "fancy":
-            idx = list(op[3])
-            arg = idx if op[2] == "list" else tuple(idx) if op[2] == "tuple" else np.array(idx, dtype=int)
+            if op[2] == "range":
+                arg = range(*op[3])
+                idx = list(arg)
+            else:
+                idx = list(op[3])
+                arg = (
+                    idx if op[2] == "list"
+                    else tuple(idx) if op[2] == "tuple"
+                    else np.array(idx, dtype=np.int32) if op[2] == "int32"
+                    else (i for i in idx) if op[2] == "generator"
+                    else np.array(idx, dtype=int)
+                )
             new_live, exc = call(lambda: ll[arg])
             try:
                 new_model = tuple(mod[i] for i in idx)
